@@ -33,6 +33,9 @@ struct RepPeek : public Integrator {
 
 struct RepPeek2 : public IntegratorRep {
     static const Array_<EventTriggerInfo>& info(const IntegratorRep& r) { return (r.*(&RepPeek2::getDynamicSystemEventTriggerInfo))(); }
+    static Real winLow(const IntegratorRep& r) { return (r.*(&RepPeek2::getEventWindowLow))(); }
+    static Real winHigh(const IntegratorRep& r) { return (r.*(&RepPeek2::getEventWindowHigh))(); }
+    static const Array_<EventId>& trig(const IntegratorRep& r) { return (r.*(&RepPeek2::getTriggeredEvents))(); }
 };
 
 // trace records from the hooks (none if the hooks are not applied in the tree under test)
@@ -265,7 +268,7 @@ static void modeLoc(unsigned long long seed, int nscen) {
             g_recs.clear();
             Integrator::SuccessfulStepStatus st;
             try { st = integ->stepTo(report, sched); }
-            catch (const std::exception& e) { printf("THROW %s\n", e.what()); break; }
+            catch (const std::exception& e) { std::string m = e.what(); for (char& ch : m) if (ch == '\n' || ch == '\r') ch = ' '; printf("THROW %s\n", m.c_str()); break; }
             ++calls;
             printf("CALL %a %a pre %a %d post %s %a %a %d", report, sched, preAdv, preSteps, stName(st), integ->getTime(),
                    integ->getAdvancedTime(), integ->getNumStepsTaken());
@@ -404,10 +407,13 @@ static void modeTs(unsigned long long seed, int nscen, bool reportAll) {
             while (guard++ < 5000) {
                 Integrator::SuccessfulStepStatus st;
                 try { st = ts.stepTo(targets[ti]); }
-                catch (const std::exception& e) { printf("THROW %s\n", e.what()); over = true; break; }
-                Vec2 w(NaN, NaN); if (st == Integrator::ReachedEventTrigger) w = integ->getEventWindow();
+                catch (const std::exception& e) { std::string m = e.what(); for (char& ch : m) if (ch == '\n' || ch == '\r') ch = ' '; printf("THROW %s\n", m.c_str()); over = true; break; }
+                // read the window / triggered events from the rep: the public accessors refuse once a terminating handler
+                // has moved the integrator to FinalTimeHasBeenReturned
+                const IntegratorRep& rp = RepPeek::rep(*integ);
+                Vec2 w(NaN, NaN); if (st == Integrator::ReachedEventTrigger) w = Vec2(RepPeek2::winLow(rp), RepPeek2::winHigh(rp));
                 printf("RET %s %a %a %d %a %a", stName(st), integ->getTime(), integ->getAdvancedTime(), (int)integ->isSimulationOver(), w[0], w[1]);
-                if (st == Integrator::ReachedEventTrigger) { const Array_<EventId>& ids = integ->getTriggeredEvents(); printf(" %d", (int)ids.size()); for (auto id : ids) printf(" %d", (int)id); }
+                if (st == Integrator::ReachedEventTrigger) { const Array_<EventId>& ids = RepPeek2::trig(rp); printf(" %d", (int)ids.size()); for (auto id : ids) printf(" %d", (int)id); }
                 else printf(" 0");
                 printf(" Q %a %a\n", S.a->getOneQ(integ->getAdvancedState(), 0), S.b->getOneQ(integ->getAdvancedState(), 0));
                 if (integ->isSimulationOver()) { over = true; break; }
